@@ -392,6 +392,62 @@ fn negative_table(rep: &mut Report) {
     });
 }
 
+/// lane-wise preconditions: the documented violation may sit in any subset of the lanes
+fn negative_lane_patterns(rep: &mut Report) {
+    let asserts_on = catch(|| Vec3::new(1.0, 2.0, 3.0).clamp_length(2.0, 1.0)).is_err();
+    macro_rules! clamp_pat {
+        ($(($T:ident, $S:ident, $N:expr)),*) => {$(
+            rep.sweep_seq(concat!("negative lane patterns/", stringify!($T), "::clamp(min > max in a lane subset)/2^N subsets"), 1u64 << $N, |idx, acc| {
+                let mn: [$S; $N] = core::array::from_fn(|_| 2 as $S);
+                let mx: [$S; $N] = core::array::from_fn(|i| if (idx >> i) & 1 == 1 { 1 as $S } else { 3 as $S });
+                let r = catch(|| { let _ = <$T>::splat(2 as $S).clamp(<$T>::from_array(mn), <$T>::from_array(mx)); });
+                acc.eval(idx != 0, r.is_err() as u64 | idx << 1);
+                let want = asserts_on && idx != 0;
+                if r.is_err() != want {
+                    acc.fail(concat!("negative::", stringify!($T), "::clamp(min > max)"), format!("glam-assert {}: min={:?} max={:?} {}", if asserts_on { "enabled" } else { "disabled" }, mn, mx, if r.is_err() { "panicked" } else { "did not panic" }));
+                }
+            });
+        )*};
+    }
+    clamp_pat!((Vec2, f32, 2), (Vec3, f32, 3), (Vec3A, f32, 3), (Vec4, f32, 4), (DVec2, f64, 2), (DVec3, f64, 3), (DVec4, f64, 4),
+        (IVec2, i32, 2), (IVec3, i32, 3), (IVec4, i32, 4), (UVec3, u32, 3), (I8Vec4, i8, 4), (U8Vec2, u8, 2), (I16Vec3, i16, 3), (U16Vec4, u16, 4), (I64Vec2, i64, 2), (U64Vec3, u64, 3), (USizeVec4, usize, 4));
+    macro_rules! scale_pat {
+        ($(($M:ident, $V:ident, $S:ident, $N:expr)),*) => {$(
+            rep.sweep_seq(concat!("negative lane patterns/", stringify!($M), "::from_scale(zero in a lane subset)/2^N subsets"), 1u64 << $N, |idx, acc| {
+                let sc: [$S; $N] = core::array::from_fn(|i| if (idx >> i) & 1 == 1 { 0.0 } else { 1.5 + i as $S });
+                let r = catch(|| { let _ = <$M>::from_scale(<$V>::from_array(sc)); });
+                let all_zero = idx == (1u64 << $N) - 1;
+                acc.eval(idx != 0, r.is_err() as u64 | idx << 1);
+                // documented: panics only if all elements of the scale are zero
+                if r.is_err() != (asserts_on && all_zero) {
+                    acc.fail(concat!("negative::", stringify!($M), "::from_scale(zero lanes)"), format!("glam-assert {}: scale={:?} {}", if asserts_on { "enabled" } else { "disabled" }, sc, if r.is_err() { "panicked" } else { "did not panic" }));
+                }
+            });
+        )*};
+    }
+    scale_pat!((Mat4, Vec3, f32, 3), (Mat3, Vec2, f32, 2), (Mat3A, Vec2, f32, 2), (DMat4, DVec3, f64, 3), (DMat3, DVec2, f64, 2));
+    macro_rules! srt_pat {
+        ($(($M:ident, $V:ident, $Q:ident, $S:ident)),*) => {$(
+            rep.sweep_seq(concat!("negative lane patterns/", stringify!($M), "::to_scale_rotation_translation(zero scale in a lane subset)/8 subsets"), 8, |idx, acc| {
+                let sc: [$S; 3] = core::array::from_fn(|i| if (idx >> i) & 1 == 1 { 0.0 } else { 1.5 + i as $S });
+                // built from columns so that the constructor's own assertion is not what fires
+                let rot = <$Q>::from_axis_angle(<$V>::new(0.6, 0.0, 0.8), 0.7);
+                let m = <$M>::from_rotation_translation(rot, <$V>::new(1.0, 2.0, 3.0));
+                let r = catch(|| {
+                    let mut m = m;
+                    m.x_axis *= sc[0]; m.y_axis *= sc[1]; m.z_axis *= sc[2];
+                    let _ = m.to_scale_rotation_translation();
+                });
+                acc.eval(idx != 0, r.is_err() as u64 | idx << 1);
+                if r.is_err() != (asserts_on && idx != 0) {
+                    acc.fail(concat!("negative::", stringify!($M), "::to_scale_rotation_translation(zero scale)"), format!("glam-assert {}: scale={:?} {}", if asserts_on { "enabled" } else { "disabled" }, sc, if r.is_err() { "panicked" } else { "did not panic" }));
+                }
+            });
+        )*};
+    }
+    srt_pat!((Mat4, Vec3, Quat, f32), (DMat4, DVec3, DQuat, f64));
+}
+
 fn main() {
     let mut rep = Report::new("C20", "model_checking");
     silence_panics();
@@ -415,6 +471,7 @@ fn main() {
     }
     long_chains(&mut rep, &opsv, &seedsv, &mut stream);
     negative_table(&mut rep);
+    negative_lane_patterns(&mut rep);
     let path = format!("{}/work/C20.{}.{}.stream", VERIF_DIR, rep.args.cfg, rep.args.tier);
     let mut f = std::fs::File::create(&path).expect("stream file");
     for l in &stream {
